@@ -21,7 +21,7 @@ func (v *VC) Preamble() string {
 	var sb strings.Builder
 	sb.WriteString("(set-option :produce-models true)\n(set-logic ALL)\n")
 	sb.WriteString("(declare-sort Str 0)\n(declare-fun strlen (Str) Int)\n(declare-const str_empty Str)\n(assert (= (strlen str_empty) 0))\n")
-	sb.WriteString("(assert (forall ((s Str)) (! (and (>= (strlen s) 0) (=> (= (strlen s) 0) (= s str_empty))) :pattern ((strlen s)))))\n")
+	sb.WriteString("(assert (forall ((s Str)) (! (and (>= (strlen s) 0) (<= (strlen s) 9223372036854775807) (=> (= (strlen s) 0) (= s str_empty))) :pattern ((strlen s)))))\n")
 	sb.WriteString("(declare-datatypes ((Ptr 0)) (((nilp) (obj (obj-id Int)) (fld (fld-base Ptr) (fld-idx Int)) (elm (elm-base Ptr) (elm-idx Int)))))\n")
 	sb.WriteString("(declare-datatypes ((Slice 0)) (((mk-slice (s-base Ptr) (s-off Int) (s-len Int) (s-cap Int)))))\n")
 	sb.WriteString("(define-fun nil_slice () Slice (mk-slice nilp 0 0 0))\n")
